@@ -145,10 +145,10 @@ class Oracle:
         return True
 
     def attribute(self, node, key):
-        hits = [v for kk, v in node.value if isinstance(kk, self.yaml.ScalarNode) and kk.tag == CORE + 'str'
-                and kk.value == key]
+        hits = [v for kk, v in node.value if isinstance(kk, self.yaml.ScalarNode) and kk.value == key]
         if len(hits) > 1:
-            raise Undefined('repeated key')
+            # a parameter given twice: the document is refused whatever else might match
+            raise Reject('repeated key ' + key)
         return hits[0] if hits else None
 
     # ---- loading ----------------------------------------------------------------------------------
@@ -273,8 +273,8 @@ class Oracle:
             key = kk.value
             if key in ('_yatiml_extra', 'self', 'yatiml_extra'):
                 raise Undefined('reserved key')
-            if key in seen:
-                raise Undefined('repeated key')
+            if key in seen and key in params:
+                raise Reject('repeated key ' + key)
             seen.add(key)
             if key in params:
                 pt = params[key]['type'] if params[key].get('type') is not None else ('any',)
